@@ -1,9 +1,146 @@
+import Mathlib.Tactic.NormNum.Basic
+import Mathlib.Algebra.Order.Field.Rat
 import TapkeeVerif.Model.LocallyLinear
-/-! C08 property theorems (skeleton; filled in below as the proofs land). -/
+import TapkeeVerif.Proofs.LocallyLinear
+import TapkeeVerif.Proofs.LocallyLinearHlle
+/-!
+C08 property theorems: the sparse matrices assembled by `routines/locally_linear.hpp`
+(`linear_weight_matrix`, `tangent_weight_matrix`, `hessian_weight_matrix`) in closed matrix form.
+Helper lemmas: `Proofs/LocallyLinear.lean`, `Proofs/LocallyLinearHlle.lean`, `Proofs/Triplets.lean`.
+-/
 namespace TapkeeVerif.C08
-open TapkeeVerif.LocallyLinear
+open TapkeeVerif TapkeeVerif.LocallyLinear Matrix
+
+variable {K : Type} [Field K] {N k d : Nat}
+
+/-! ## 1. `linear_weight_matrix` (KLLE / NPE) -/
+
+/-- The assembled LLE matrix is `(I − W)ᵀ(I − W) + shift·I`, for ALL neighbour lists (duplicates and
+    self-neighbours allowed) and all solver results `wraw`. -/
+theorem lle_M_eq (nb : Fin N → Fin k → Fin N) (wraw : Fin N → Vec k K) (shift : K) :
+    Mat.toM (lleM nb wraw shift)
+      = (1 - lleW nb (fun i => lleWeights (wraw i)))ᵀ * (1 - lleW nb (fun i => lleWeights (wraw i)))
+        + shift • (1 : Matrix (Fin N) (Fin N) K) :=
+  lleM_toM nb wraw shift
+
+/-- the accumulating (`+=`) form the driver runs is the same matrix -/
+theorem lleMD_get (nb : Fin N → Fin k → Fin N) (wraw : Fin N → Vec k K) (shift : K) :
+    (lleMD nb wraw shift).get = lleM nb wraw shift :=
+  fromTripletsD_get _
+
+/-- after `weights /= weights.sum()` every row of `W` sums to one (whenever the raw sum is non-zero) -/
+theorem lle_rows_sum_one (nb : Fin N → Fin k → Fin N) (wraw : Fin N → Vec k K) (i : Fin N)
+    (h : sumFin k (wraw i) ≠ 0) :
+    ∑ j, lleW nb (fun i => lleWeights (wraw i)) i j = 1 := by
+  simp only [lleW_apply]
+  rw [lleRow_sum, lleWeights_sum _ h]
+
+/-- non-vacuity: raw weights `(1,2,3)` over ℚ (sum 6), neighbour list with a duplicate and a self-neighbour -/
+example : sumFin 3 (fun a : Fin 3 => ((a.1 : ℚ) + 1)) ≠ 0 := by
+  simp [sumFin_eq_sum, Fin.sum_univ_succ]
+  norm_num
+
+example (i : Fin 2) :
+    ∑ j, lleW (fun (_ : Fin 2) (a : Fin 3) => (⟨a.1 % 2, by omega⟩ : Fin 2))
+      (fun i => lleWeights ((fun _ (a : Fin 3) => ((a.1 : ℚ) + 1)) i)) i j = 1 :=
+  lle_rows_sum_one _ _ i (by simp [sumFin_eq_sum, Fin.sum_univ_succ]; norm_num)
+
+/-- the constant vector is an eigenvector of the LLE matrix with eigenvalue `shift` -/
+theorem lle_const_eigvec (nb : Fin N → Fin k → Fin N) (wraw : Fin N → Vec k K) (shift : K)
+    (h : ∀ i, sumFin k (wraw i) ≠ 0) :
+    (Mat.toM (lleM nb wraw shift)).mulVec (fun _ => 1) = fun _ => shift := by
+  have hW : (1 - lleW nb (fun i => lleWeights (wraw i))).mulVec (fun _ => (1 : K)) = 0 := by
+    funext i
+    rw [Matrix.sub_mulVec, Matrix.one_mulVec, Pi.sub_apply, Pi.zero_apply]
+    simp only [Matrix.mulVec, dotProduct, mul_one]
+    rw [lle_rows_sum_one nb wraw i (h i), sub_self]
+  rw [lle_M_eq, Matrix.add_mulVec, ← Matrix.mulVec_mulVec, hW, Matrix.mulVec_zero, zero_add,
+    Matrix.smul_mulVec, Matrix.one_mulVec]
+  funext i
+  simp
+
+example : ∀ i : Fin 2, sumFin 3 ((fun _ (a : Fin 3) => ((a.1 : ℚ) + 1)) i) ≠ 0 := by
+  intro i
+  simp [sumFin_eq_sum, Fin.sum_univ_succ]
+  norm_num
+
+/-- the matrix `ldlt()` factorises is symmetric (it is read through `selfadjointView<Upper>`) -/
+theorem lle_system_symm (κ : Mat N N K) (i : Fin N) (nb : Fin k → Fin N) (tshift : K) (a b : Fin k) :
+    lleSystem κ i nb tshift a b = lleSystem κ i nb tshift b a := by
+  rw [lleSystem_apply, lleSystem_apply]
+  simp only [Mat.upperView]
+  by_cases h1 : a ≤ b <;> by_cases h2 : b ≤ a
+  · have : a = b := Fin.ext (by omega)
+    subst this
+    rfl
+  · simp [h1, h2]
+  · simp [h1, h2]
+  · omega
+
+/-- … its upper triangle is the local Gram matrix as written, plus `trace_shift · trace` on the diagonal -/
+theorem lle_system_eq (κ : Mat N N K) (i : Fin N) (nb : Fin k → Fin N) (tshift : K) (a b : Fin k) (h : a ≤ b) :
+    lleSystem κ i nb tshift a b
+      = κ i i - κ i (nb a) - κ i (nb b) + κ (nb a) (nb b)
+        + (if a = b then tshift * ∑ c, (κ i i - κ i (nb c) - κ i (nb c) + κ (nb c) (nb c)) else 0) := by
+  rw [lleSystem_apply, lleLocalGram_trace]
+  simp only [Mat.upperView, if_pos h, addDiag, lleLocalGram]
+  split_ifs <;> simp
+
+example : (0 : Fin 2) ≤ 1 := by decide
+
+/-! ## 3. `hessian_weight_matrix` (HLLE): column bookkeeping -/
 
 /-- F-HLLE-CT, Lean witness: at `d = 3` the generated `ct` recurrence writes column 12 of a 10-column matrix. -/
 theorem hlle_cols_d3_out_of_range : hlleIndexErr 3 = some (.oob 12 10) := by decide
+
+/- FULL STATEMENT (false of the current source, `ct += ct + target_dimension - j`):
+     theorem hlle_cols_bijective : ∀ d, ColsOK d
+   i.e. for every target dimension the product columns written are exactly `[1+d, 1+d+d(d+1)/2)`, each once.
+   Refuted below (d = 3 writes `[4,5,6,7,8,12]`), proved for `d ≤ 2`, and proved for all `d` for the repaired
+   recurrence `ct += target_dimension - j` (`hlle_cols_bijective_of_update`, `hlle_cols_bijective_fixed`). -/
+theorem hlle_cols_bijective_refuted : ¬ ∀ d, ColsOK d := by
+  intro h
+  exact absurd (h 3) (by decide)
+
+example : hlleWrittenCols 3 = [4, 5, 6, 7, 8, 12] := by decide
+
+theorem hlle_cols_bijective_partial : ∀ d, d ≤ 2 → ColsOK d := by
+  intro d hd
+  have : d = 0 ∨ d = 1 ∨ d = 2 := by omega
+  rcases this with rfl | rfl | rfl <;> decide
+
+theorem hlle_index_ok_partial : ∀ d, d ≤ 2 → hlleIndexErr d = none := by
+  intro d hd
+  have : d = 0 ∨ d = 1 ∨ d = 2 := by omega
+  rcases this with rfl | rfl | rfl <;> decide
+
+example : (2 : Nat) ≤ 2 := by decide
+
+/-- the model's write-list generator is the parametrised one at the generated `ct` update -/
+theorem hlle_writes_eq_with (d : Nat) : hlleWritesGo d = writesGoWith Gen.HlleIndex.ctUpdate d :=
+  hlleWritesGo_eq d
+
+/-- with the repaired recurrence `ct += d - j` the written columns are exactly `[1+d, 1+d+d(d+1)/2)`, each once
+    (in fact in increasing order), for EVERY `d` -/
+theorem hlle_cols_bijective_of_update (d : Nat) :
+    ((writesGoWith (fun ct d j => ct + (d - j)) d
+        (Gen.HlleIndex.jHi d - Gen.HlleIndex.jLo).toNat Gen.HlleIndex.jLo Gen.HlleIndex.ctInit).map (·.1)).Perm
+      ((List.range (d * (d + 1) / 2)).map fun c => ((1 + d + c : Nat) : Int)) := by
+  have := writesGoWith_fixed_cols_all d
+  unfold ctFixed at this
+  rw [this]
+
+/-- … hence `∀ d, ColsOK d` holds the moment the generated update is `ct + (d - j)` (one-token source fix) -/
+theorem hlle_cols_bijective_fixed
+    (hfix : ∀ ct d j, Gen.HlleIndex.ctUpdate ct d j = ct + (d - j)) : ∀ d, ColsOK d := by
+  intro d
+  have hupd : Gen.HlleIndex.ctUpdate = fun ct d j => ct + (d - j) := by
+    funext ct d j
+    exact hfix ct d j
+  have := hlle_cols_bijective_of_update d
+  rw [← hupd, ← hlleWritesGo_eq] at this
+  exact this
+
+-- SPECTRAL THEOREMS (appended by the spectral owner)
 
 end TapkeeVerif.C08
